@@ -199,7 +199,9 @@ func findParent(metaCursor *bbolt.Cursor, objID oid.ID) oid.ID {
 			return seekForParentViaAttribute(metaCursor, attr, val)
 		}
 	}
-	return parent
+	// the first part of a V2 split names neither a parent nor a first part,
+	// the other parts name it
+	return seekForParentViaAttribute(metaCursor, object.FilterFirstSplitObject, objID[:])
 }
 
 // isExpired checks if the object expired at the current epoch.
